@@ -17,6 +17,8 @@ def sh(cmd, cwd=None):
     p = subprocess.run(cmd, shell=True, cwd=cwd, capture_output=True, text=True)
     return p.returncode, (p.stdout + p.stderr)
 report = {}
+if sh('git -C /repo status --porcelain --untracked-files=no')[1].strip():
+    sys.exit('/repo has uncommitted changes; commit or stash them first (this tool reverts the working tree)')
 if os.path.isdir(wt) and '--skip-confirm' not in sys.argv:
     sh('git checkout -- . ', wt)
     rc, out = sh('/venv/bin/python ' + demo, wt); report['demo_clean'] = rc
